@@ -42,7 +42,7 @@ BOUNDS = [None] + list(range(-1, 10))
 
 
 def budget(tier):
-    return {"quick": dict(examples=800, shards=1), "thorough": dict(examples=2500, shards=16)}[tier]
+    return {"quick": dict(examples=800, shards=1), "thorough": dict(examples=10000, shards=16)}[tier]
 
 
 # ----------------------------------------------------------------------------------------------
